@@ -152,10 +152,10 @@ Section Refine.
 
   (* visiting one group *)
   Lemma step_fire : forall prev cur g,
-    (do h <- antecedents_hold_o dom eps (Some objs) g prev; if h then apply_group_m prev cur g else Ok cur) =
+    (do h <- antecedents_hold dom eps (Some objs) g prev; if h then apply_group_m prev cur g else Ok cur) =
     (do gs <- fire dom eps objs prev g; Ok (succ cur gs)).
   Proof.
-    intros prev cur g. unfold fire. destruct (antecedents_hold_o dom eps (Some objs) g prev) as [h|k]; simpl; [|reflexivity].
+    intros prev cur g. unfold fire. destruct (antecedents_hold dom eps (Some objs) g prev) as [h|k]; simpl; [|reflexivity].
     destruct h; [|reflexivity]. rewrite apply_group_m_spec.
     destruct (gprims_of prev g); reflexivity.
   Qed.
@@ -193,10 +193,10 @@ Section Refine.
 
   Lemma apply_universal_fire : forall ga uorder prev cur,
     (forall o ue, In o objs -> In ue (ma_univ (ga_action ga)) -> is_ok (fire_univ dom eps objs (ga_pm ga) prev o ue) = true) ->
-    apply_universal_o dom eps ga (Some objs) uorder prev cur =
+    apply_universal dom eps ga (Some objs) uorder prev cur =
     Ok (succ cur (flat_map (fun o => flat_map (fired_univ (ga_pm ga) prev o) (reorder (ma_univ (ga_action ga)) uorder)) objs)).
   Proof.
-    intros ga uorder prev cur Hok. unfold apply_universal_o.
+    intros ga uorder prev cur Hok. unfold apply_universal.
     set (L := reorder (ma_univ (ga_action ga)) uorder).
     rewrite (foldM_fire _ (fun o => do gss <- mapM (fire_univ dom eps objs (ga_pm ga) prev o) L; Ok (List.concat gss))).
     - assert (HF : forall o, In o objs ->
@@ -220,9 +220,9 @@ Section Refine.
   Theorem apply_op_fire : forall ga allow order uorder s b,
     is_applicable dom eps (Some objs) ga s = Ok b -> (b = true \/ allow = true) ->
     evaluates dom eps objs ga s ->
-    apply_op_o dom eps ga (Some objs) allow false order uorder s = Ok (succ s (model_groups ga order uorder s)).
+    apply_op dom eps ga (Some objs) allow false order uorder s = Ok (succ s (model_groups ga order uorder s)).
   Proof.
-    intros ga allow order uorder s b Happ Hb [Hg Hu]. unfold apply_op_o. rewrite Happ. cbn [bind].
+    intros ga allow order uorder s b Happ Hb [Hg Hu]. unfold apply_op. rewrite Happ. cbn [bind].
     assert (Hgo : negb b && negb allow = false) by (destruct Hb; subst; [reflexivity | apply andb_false_r]).
     rewrite Hgo.
     rewrite (foldM_fire _ (fire dom eps objs s)) by (intros cur g; apply step_fire).
@@ -325,7 +325,7 @@ Section Groups.
       assert (Ha : gg_ante g = None).
       { unfold ground_group in Hg. inv_bind Hg ga Hga. inv_bind Hg gd Hgd. inv_bind Hg gn Hgn. inversion Hg; subst.
         simpl. inversion Hga. reflexivity. }
-      unfold fire, antecedents_hold_o in *. rewrite Ha in *. cbn [bind] in *.
+      unfold fire, antecedents_hold in *. rewrite Ha in *. cbn [bind] in *.
       destruct (gprims_of s g) as [x|k] eqn:Ex; [|discriminate]. simpl.
       rewrite (gprims_spec _ _ _ _ _ _ Hg Hd Ex). reflexivity.
     Qed.
@@ -341,7 +341,7 @@ Section Groups.
       { unfold ground_group in Hg. inv_bind Hg ga Hga. inv_bind Hg gd Hgd. inv_bind Hg gn Hgn. inversion Hg; subst.
         simpl. inv_bind Hga gp Hgp. inversion Hga. exists gp. auto. }
       destruct Ha as [gp [Ha Hgp]].
-      unfold fire, antecedents_hold_o in *. rewrite Ha in *.
+      unfold fire, antecedents_hold in *. rewrite Ha in *.
       destruct (eval_g dom eps (Some objs) s gp) as [h|k] eqn:Eh; [|discriminate]. cbn [bind] in *.
       rewrite (eval_g_holds dom eps objs (Some objs) s p pm e gp c h Hag Hcu Hqv eq_refl Hgp Hc Eh) in *.
       destruct (holds eps (d_types dom) objs e s c); [|reflexivity].
